@@ -57,8 +57,9 @@ def lenient(steps):
         return True
     if steps[0].startswith("[") or (len(steps[0]) < 3 and steps[0] != "id"):
         return True
-    if steps[0] == "granular_markings":
-        return True       # a selector into the marking list itself: every marking operation rewrites that list, so what it addresses is not stable
+    if steps[0] in ("granular_markings", "object_marking_refs"):
+        return True       # a selector into the marking lists themselves: marking operations rewrite those lists, so what it addresses is not stable
+                          # (clearing the object markings of an object whose granular marking selects object_marking_refs.[0] cannot yield a valid object)
     return False
 
 
